@@ -52,6 +52,18 @@ impl InstallManifestBuilder {
         }
     }
 
+    /// Verification shim (compiled only by the Kani model checker): a builder over the given
+    /// tags and entries with an EMPTY name index (no hashing); for operations that address files
+    /// and tags by position.
+    #[cfg(kani)]
+    pub fn verif_from_parts(tags: Vec<InstallTag>, entries: Vec<InstallFileEntry>) -> Self {
+        Self {
+            tags,
+            entries,
+            tag_name_to_index: HashMap::new(),
+        }
+    }
+
     /// Create builder from existing manifest
     pub fn from_manifest(manifest: &InstallManifest) -> Self {
         let tag_name_to_index = manifest
